@@ -9,5 +9,6 @@ uint64_t verif_k_drawn[4]; unsigned verif_rand_calls; int verif_rand_fail;      
 unsigned verif_x_bc_calls; int verif_x_bc_last_ca; int verif_x_bc_last_ret; int verif_x_unknown_critical;   /* x509 extension checks */
 unsigned verif_c_ci; unsigned verif_c_chk_calls; int verif_c_chk_type0; int verif_c_chk_type1; int verif_c_chk_nonca; int verif_c_plc_ci;   /* x509 chain */
 size_t verif_c_chk_last; size_t verif_c_chk_first; size_t verif_c_chk_second; unsigned verif_c_vfy_calls; int verif_c_vfy_bad; size_t verif_c_vfy_prev_parent; int verif_c_vfy_second;
+int verif_l_ne_last; size_t verif_l_ne_a_of; size_t verif_l_gs_of; unsigned verif_l_calls;   /* trust-store lookup */
 #endif
 #endif
